@@ -87,7 +87,27 @@ def check_type(case) -> list[Fail]:
     if y.type_bound().value != want:
         fails.append(Fail("decoded-bound", t["k"], f"{y.type_bound().value} != {want}"))
     fails += check_twin(t)
+    # the same type after a resolution that can find nothing (empty registry) has the same bound
+    try:
+        import hugr.ext as hext
+
+        z = x.resolve(hext.ExtensionRegistry())
+        if z.type_bound().value != want:
+            fails.append(Fail("type_bound", "after-resolve-against-empty-registry:" + t["k"], f"got={z.type_bound().value} want={want} type={json.dumps(t)[:200]}"))
+    except Exception as e:  # noqa: BLE001
+        from vlib.runner import exc_fail
+
+        fails.append(exc_fail("resolve", e))
     return fails
+
+
+# element types whose bound is only declared: variables, aliases, opaque types (both bounds)
+LEAF_ELEMS = st.one_of(
+    st.tuples(st.integers(0, 3), st.sampled_from(["A", "C"])).map(lambda t: {"k": "var", "i": t[0], "b": t[1]}),
+    st.tuples(asts.NAMES, st.sampled_from(["A", "C"])).map(lambda t: {"k": "alias", "name": t[0], "b": t[1]}),
+    st.tuples(asts.EXT_NAMES, asts.NAMES, st.sampled_from(["A", "C"])).map(lambda t: {"k": "opaque", "ext": t[0], "id": t[1], "args": [], "b": t[2]}),
+    st.just({"k": "qubit"}),
+)
 
 
 def check_sarray(case) -> list[Fail]:
@@ -137,7 +157,7 @@ def cls(case):
 SUBS = [
     Sub("types", check_type, fuzz_runs=3000, strategy=lambda tier: st.one_of(asts.types(4 if tier == "quick" else 6), asts.types_x(3 if tier == "quick" else 4, 1)).map(lambda t: {"t": t}),
         nontrivial=lambda c: has_linear_or_fp(c["t"]), classes=cls, n_quick=3000, n_thorough=20000),
-    Sub("static-array", check_sarray, strategy=lambda tier: asts.types_x(3, 1).map(lambda t: {"elem": t}),
+    Sub("static-array", check_sarray, strategy=lambda tier: st.one_of(asts.types_x(3, 1), asts.types_x(3, 1), LEAF_ELEMS).map(lambda t: {"elem": t}),
         nontrivial=lambda c: has_linear_or_fp(c["elem"]), classes=lambda c: ["linear-elem" if ref.ref_bound(c["elem"]) == "A" else "copyable-elem"], n_quick=800, n_thorough=4000),
     Sub("join", check_join, enumerate=enum_join, nontrivial=lambda c: len(c["bs"]) >= 2, exhaustive=True),
 ]
